@@ -76,7 +76,7 @@ def fold_module_global(repo, folder, mod, name):
             raise AnalysisError("%s: regex method %s on a non-constant subject" % (_F.loc(node), mname))
         return NotImplemented
 
-    it = SymInterp(repo, folder, asg={}, hooks={"method": h_method})
+    it = SymInterp(repo, folder, asg={}, hooks={"method": h_method, "inline": lambda f: f.cls is None and f.module is mod})
     env = {}
     try:
         for s in chosen:
@@ -164,7 +164,8 @@ def determine_next_paths(repo, folder, dn, op):
                 lookups.append((recv, name, args[0], node))
             return NotImplemented
 
-        it = SymInterp(repo, folder, asg=asg, hooks={"method": h_method, "call": isa_hook})
+        it = SymInterp(repo, folder, asg=asg, hooks={"method": h_method, "call": isa_hook,
+                                                     "inline": lambda f: f.cls is None and f.module is dn.module})
         try:
             r = it.call_function(dn, [INS, CUR, METH])
         except Raised as ex:
@@ -219,15 +220,32 @@ class ModelPath:
         self.pops = 0
 
 
+import re as _re
+
+_EXC_COMPONENT = _re.compile(r"index\(elem\(EXC\),-?\d+\)|index\(elem\(slice\(elem\(EXC\),[^()]*\)\),-?\d+\)")
+_LEN_TERMS = _re.compile(r"(\+?-?\d*\*?len\(\d+\))")
+
+
 def _interpretable(atom):
-    """is the consulted fact one the specification can talk about?"""
+    """is the consulted fact one the specification can talk about?  (offset of an instruction is in a
+    determineNext result / equals one component of an exception entry or of one of its handlers)"""
     kind = atom[0]
-    txt = " ".join(str(x) for x in atom[1:])
     if kind == "in":
-        return atom[2].startswith("DN(") or atom[2].startswith("EXC") or "elem(EXC)" in atom[2]
+        return atom[2].startswith("DN(") and _offset_text(atom[1])
     if kind == "eq0":
-        return "EXC" in txt or "DN(" in txt
+        txt = atom[1]
+        comps = _EXC_COMPONENT.findall(txt)
+        if len(comps) != 1:
+            return False
+        rest = txt.replace(comps[0], "", 1)
+        return _offset_text(rest)
     return False
+
+
+def _offset_text(t):
+    """text of a linear form over instruction lengths only (an instruction offset, possibly negated)"""
+    t = _LEN_TERMS.sub("", t)
+    return t.strip("+") in ("", "0")
 
 
 def run_block_model(repo, folder, ma_cls, dn_func, de_func, basic_ops, ops, max_paths=6000):
